@@ -2,5 +2,6 @@ SPECIFICATION Spec
 CONSTANTS
   Mods = {"ma", "mb", "mc", "md"}
   Families = {"uniform", "sample"}
+  AssumeAll = TRUE
 INVARIANTS TypeOK RunOnce NoReentry OneObject Provenance StarRespectsUnderscore Terminates Usable Emit
 CHECK_DEADLOCK FALSE
